@@ -94,9 +94,9 @@ type plan struct {
 	CtxPos     pos    `json:"ctx_at,omitempty"`
 	Yields     int    `json:"yields"` // schedule perturbation used by releasers / async helpers
 	Gauge      bool   `json:"gauge,omitempty"`
-	Barrier    bool   `json:"barrier,omitempty"` // mappers linger until the cap is reached (gauge family)
+	Barrier    bool   `json:"barrier,omitempty"`          // mappers linger until the cap is reached (gauge family)
 	Inflight   bool   `json:"cancel_in_flight,omitempty"` // family inflight: see inflight_test.go
-	SecondKind string `json:"fault2,omitempty"`  // a second, independent fault
+	SecondKind string `json:"fault2,omitempty"`           // a second, independent fault
 	SecondAt   pos    `json:"fault2_at,omitempty"`
 }
 
